@@ -115,6 +115,11 @@ class Multiplication:
         continue
       processed.add(id(l))
       lc = l.clone()
+      # an edge identifier cannot be repeated: the copy is anonymous
+      if lc.record_type == "E":
+        lc.eid = gfapy.Placeholder()
+      else:
+        lc.delete("ID")
       if lc.from_segment == segment.name:
         lc.from_segment = clone_name
       if lc.to_segment == segment.name:
